@@ -217,36 +217,134 @@ theorem follow_ne_fuel (defs : List (Nat × Node)) :
         omega
 
 
-/-! ## path interpreter: simulation between the model's `addSeg` and the spec's `step` -/
+theorem followGuard_ne_fuel (defs : List (Nat × Node)) :
+    ∀ d inP key, unused (defs.map (·.1)) inP < d → followGuard defs d inP key ≠ .error .fuel := by
+  intro d
+  induction d with
+  | zero => intro _ _ h; omega
+  | succ d ih =>
+    intro inP key h
+    unfold followGuard
+    split
+    · simp
+    · rename_i hc
+      split
+      · simp
+      · rename_i content ht
+        apply processWith_ne_fuel
+        intro id'
+        apply ih
+        have hm := lookupDef_mem defs key content ht
+        have := unused_cons_lt (defs.map (·.1)) inP key hm (by simpa using hc)
+        omega
 
-def segRaw : Seg → Char × List Rat
-  | .move rel p => (if rel then 'm' else 'M', [p.1, p.2])
-  | .line rel p => (if rel then 'l' else 'L', [p.1, p.2])
-  | .h rel x => (if rel then 'h' else 'H', [x])
-  | .v rel y => (if rel then 'v' else 'V', [y])
-  | .cubic rel c1 c2 p => (if rel then 'c' else 'C', [c1.1, c1.2, c2.1, c2.2, p.1, p.2])
-  | .smooth rel c2 p => (if rel then 's' else 'S', [c2.1, c2.2, p.1, p.2])
-  | .quad rel c p => (if rel then 'q' else 'Q', [c.1, c.2, p.1, p.2])
-  | .smoothQuad rel p => (if rel then 't' else 'T', [p.1, p.2])
-  | .arc rel a => (if rel then 'a' else 'A',
-      [a.rx, a.ry, a.rot, if a.large then 1 else 0, if a.sweep then 1 else 0, a.p.1, a.p.2])
-  | .close => ('Z', [])
+/-! ## path interpreter: the model's `addSeg` loops against the spec's `interp ∘ expand` -/
 
-def isArcSeg : Seg → Bool
-  | .arc _ _ => true
-  | _ => false
+theorem lastD_cons {α} (d d' : α) (h : α) (t : List α) : lastD d (h :: t) = lastD d' (h :: t) := by
+  induction t generalizing h with
+  | nil => simp [lastD]
+  | cons a t ih => simp only [lastD]; exact ih a
 
-/-- every closepath closes a sub-path that a moveto opened (no closepath since) -/
-def closesOk : Bool → List Seg → Bool
-  | _, [] => true
-  | _, .move _ _ :: r => closesOk true r
-  | o, .close :: r => o && closesOk false r
-  | o, _ :: r => closesOk o r
+theorem lastD_cons_eq {α} (d : α) (h : α) (t : List α) : lastD d (h :: t) = lastD h t := by
+  cases t with
+  | nil => simp [lastD]
+  | cons a t => simp only [lastD]; exact lastD_cons _ _ a t
 
-def openAfter (o : Bool) : Seg → Bool
-  | .move _ _ => true
-  | .close => false
-  | _ => o
+def absOrP (rel : Bool) (cur : Pt) (ps : List Pt) : List Pt := if rel then absPairs cur ps else ps
+def absOrV (rel : Bool) (cur : Rat) (vs : List Rat) : List Rat := if rel then absVals cur vs else vs
+def absOr4 (rel : Bool) (cur : Pt) (gs : List (Pt × Pt)) : List (Pt × Pt) := if rel then absQuads cur gs else gs
+def absOr6 (rel : Bool) (cur : Pt) (gs : List (Pt × Pt × Pt)) : List (Pt × Pt × Pt) := if rel then absSixes cur gs else gs
+
+/-- spec state after a non-empty run of segments that clear the control points -/
+def plain (cur start : Pt) : SSt := { cur := cur, start := start }
+
+theorem lines_interp (rel : Bool) : ∀ (ps : List Pt) (s : SSt),
+    interp s (ps.map (.line rel)) =
+      (if ps = [] then s else plain (lastD s.cur (absOrP rel s.cur ps)) s.start, (absOrP rel s.cur ps).map .lineTo) := by
+  intro ps
+  induction ps with
+  | nil => intro s; simp [interp, absOrP, absPairs]
+  | cons p r ih =>
+    intro s
+    simp only [List.map_cons, interp, ih]
+    cases rel <;> cases r <;>
+      simp [step, toAbs, absOrP, absPairs, padd, lastD, plain, lastD_cons_eq]
+
+theorem h_interp (rel : Bool) : ∀ (xs : List Rat) (s : SSt),
+    interp s (xs.map (.h rel)) =
+      (if xs = [] then s else plain (lastD s.cur.1 (absOrV rel s.cur.1 xs), s.cur.2) s.start,
+       (absOrV rel s.cur.1 xs).map fun v => .lineTo (v, s.cur.2)) := by
+  intro xs
+  induction xs with
+  | nil => intro s; simp [interp, absOrV, absVals]
+  | cons p r ih =>
+    intro s
+    simp only [List.map_cons, interp, ih]
+    cases rel <;> cases r <;>
+      simp [step, absOrV, absVals, lastD, plain, lastD_cons_eq]
+
+theorem v_interp (rel : Bool) : ∀ (ys : List Rat) (s : SSt),
+    interp s (ys.map (.v rel)) =
+      (if ys = [] then s else plain (s.cur.1, lastD s.cur.2 (absOrV rel s.cur.2 ys)) s.start,
+       (absOrV rel s.cur.2 ys).map fun v => .lineTo (s.cur.1, v)) := by
+  intro ys
+  induction ys with
+  | nil => intro s; simp [interp, absOrV, absVals]
+  | cons p r ih =>
+    intro s
+    simp only [List.map_cons, interp, ih]
+    cases rel <;> cases r <;>
+      simp [step, absOrV, absVals, lastD, plain, lastD_cons_eq]
+
+theorem cubic_interp (rel : Bool) : ∀ (gs : List (Pt × Pt × Pt)) (s : SSt),
+    interp s (gs.map fun g => .cubic rel g.1 g.2.1 g.2.2) =
+      (match absOr6 rel s.cur gs with
+        | [] => s
+        | g :: r => { cur := (lastD g r).2.2, start := s.start, cubicCtl := some (lastD g r).2.1 },
+       (absOr6 rel s.cur gs).map fun g => .cubicTo g.1 g.2.1 g.2.2) := by
+  intro gs
+  induction gs with
+  | nil => intro s; simp [interp, absOr6, absSixes]
+  | cons p r ih =>
+    intro s
+    obtain ⟨a, b, c⟩ := p
+    simp only [List.map_cons, interp, ih]
+    cases rel <;> cases r <;>
+      simp [step, toAbs, absOr6, absSixes, padd, lastD, lastD_cons_eq]
+
+theorem quad_loop (rel : Bool) : ∀ (gs : List (Pt × Pt)) (m : St) (s : SSt), m.cur = s.cur →
+    (quadLoop m (absOr4 rel m.cur gs)).2 = (interp s (gs.map fun g => .quad rel g.1 g.2)).2 ∧
+    (interp s (gs.map fun g => .quad rel g.1 g.2)).1 =
+      (match absOr4 rel m.cur gs with
+        | [] => s
+        | g :: r => { cur := (lastD g r).2, start := s.start, quadCtl := some (lastD g r).1 }) ∧
+    (quadLoop m (absOr4 rel m.cur gs)).1.start = m.start ∧
+    (quadLoop m (absOr4 rel m.cur gs)).1.inPath = m.inPath := by
+  intro gs
+  induction gs with
+  | nil => intro m s h; simp [interp, absOr4, absQuads, quadLoop]
+  | cons p r ih =>
+    intro m s h
+    obtain ⟨a, b⟩ := p
+    cases rel
+    · have := ih { m with cur := b } (step s (.quad false a b)).1 (by simp [step, toAbs])
+      simp only [absOr4, if_false, Bool.false_eq_true] at this ⊢
+      simp only [List.map_cons, interp, quadLoop]
+      obtain ⟨h1, h2, h3, h4⟩ := this
+      refine ⟨?_, ?_, ?_, ?_⟩
+      · rw [h1]; simp [step, toAbs, quadraticToCubic, elevate, h]
+      · rw [h2]; cases r <;> simp [step, toAbs, lastD, lastD_cons_eq]
+      · simpa using h3
+      · simpa using h4
+    · have := ih { m with cur := padd m.cur b } (step s (.quad true a b)).1 (by simp [step, toAbs, padd, h])
+      simp only [absOr4, if_true] at this ⊢
+      simp only [List.map_cons, interp, quadLoop, absQuads]
+      obtain ⟨h1, h2, h3, h4⟩ := this
+      refine ⟨?_, ?_, ?_, ?_⟩
+      · rw [h1]; simp [step, toAbs, quadraticToCubic, elevate, padd, h]
+      · rw [h2]; cases r <;> simp [step, toAbs, absQuads, padd, lastD, lastD_cons_eq, h]
+      · simpa using h3
+      · simpa using h4
 
 structure Sim (m : St) (s : SSt) (o : Bool) : Prop where
   cur : m.cur = s.cur
@@ -255,85 +353,148 @@ structure Sim (m : St) (s : SSt) (o : Bool) : Prop where
   cube : s.cubicCtl = if isCubeKey m.lastKey then some m.ctl else none
   quad : s.quadCtl = if isQuadKey m.lastKey then some m.ctl else none
 
-theorem step_sim (m : St) (s : SSt) (o : Bool) (g : Seg) (h : Sim m s o) (ha : isArcSeg g = false)
-    (hc : g = .close → o = true) :
-    ∃ m', addSeg m (segRaw g).1 (segRaw g).2 = .ok (m', (step s g).2) ∧ Sim m' (step s g).1 (openAfter o g) := by
-  obtain ⟨h1, h2, h3, h4, h5⟩ := h
-  cases g with
-  | move rel p =>
-    cases rel <;>
-      simp [segRaw, addSeg, pairs, step, toAbs, absPairs, lastD, openAfter, padd, ← h1] <;>
-      constructor <;> simp [isCubeKey, isQuadKey]
-  | line rel p =>
-    cases rel <;>
-      simp [segRaw, addSeg, pairs, step, toAbs, absPairs, lastD, openAfter, padd, ← h1, ← h2] <;>
-      constructor <;> simp [isCubeKey, isQuadKey, h3]
-  | h rel x =>
-    cases rel <;>
-      simp [segRaw, addSeg, step, absVals, lastD, openAfter, ← h1, ← h2] <;>
-      constructor <;> simp [isCubeKey, isQuadKey, h3]
-  | v rel y =>
-    cases rel <;>
-      simp [segRaw, addSeg, step, absVals, lastD, openAfter, ← h1, ← h2] <;>
-      constructor <;> simp [isCubeKey, isQuadKey, h3]
-  | cubic rel c1 c2 p =>
-    cases rel <;>
-      simp [segRaw, addSeg, sixes, step, toAbs, absSixes, lastD, openAfter, padd, ← h1, ← h2] <;>
-      constructor <;> simp [isCubeKey, isQuadKey, h3]
-  | close =>
-    have ho := hc rfl
-    subst ho
-    simp [segRaw, addSeg, step, openAfter, h3, ← h2]
-    constructor <;> simp [isCubeKey, isQuadKey]
-  | arc rel a => simp [isArcSeg] at ha
-  | quad rel c p =>
-    cases rel <;>
-      simp [segRaw, addSeg, quads, step, toAbs, absQuads, quadLoop, quadraticToCubic, elevate, lastD, openAfter, padd, ← h1, ← h2] <;>
-      constructor <;> simp [isCubeKey, isQuadKey, h3]
-  | smooth rel c2 p =>
-    cases hk : isCubeKey m.lastKey <;> cases rel <;>
-      simp [hk] at h4 <;>
-      simp [segRaw, addSeg, quads, step, toAbs, absQuads, smoothCubeLoop, hk, h4, openAfter, padd, mirror, reflection, ← h1, ← h2] <;>
-      first
-        | (constructor <;> simp [isCubeKey, isQuadKey, h3])
-        | (refine ⟨_, ⟨rfl, by grind, by grind⟩, ?_⟩; constructor <;> simp [isCubeKey, isQuadKey, h3])
-  | smoothQuad rel p =>
-    cases hk : isQuadKey m.lastKey <;> cases rel <;>
-      simp [hk] at h5 <;>
-      simp [segRaw, addSeg, pairs, step, toAbs, absPairs, smoothQuadLoop, quadraticToCubic, elevate, hk, h5, openAfter, padd, mirror, reflection, ← h1, ← h2] <;>
-      first
-        | (constructor <;> simp [isCubeKey, isQuadKey, h3])
-        | (refine ⟨_, ⟨rfl, ⟨by grind, by grind⟩, by grind, by grind⟩, ?_⟩
-           constructor <;> simp [isCubeKey, isQuadKey, h3] <;> (try constructor) <;> grind)
+theorem mirror_eq (p r : Pt) : mirror p r = reflection p r := by
+  simp only [mirror, reflection]
+  refine Prod.ext ?_ ?_ <;> simp <;> grind
 
-
-theorem run_sim (gs : List Seg) : ∀ (m : St) (s : SSt) (o : Bool), Sim m s o →
-    gs.all (fun g => !isArcSeg g) = true → closesOk o gs = true →
-    ∃ m', runSegs m (gs.map segRaw) = .ok (m', (interp s gs).2) ∧
-      m'.cur = (interp s gs).1.cur ∧ m'.start = (interp s gs).1.start := by
+theorem smoothCube_loop (rel : Bool) (op : Char) (hc : isCubeKey op = true) (hq : isQuadKey op = false) :
+    ∀ (gs : List (Pt × Pt)) (m : St) (s : SSt) (o : Bool), Sim m s o →
+    ∃ m', smoothCubeLoop op m (absOr4 rel m.cur gs) = (m', (interp s (gs.map fun g => .smooth rel g.1 g.2)).2) ∧
+      Sim m' (interp s (gs.map fun g => .smooth rel g.1 g.2)).1 o ∧ (gs ≠ [] → m'.lastKey = op) := by
+  intro gs
   induction gs with
-  | nil => intro m s o h _ _; exact ⟨m, by simp [runSegs, interp], h.cur, h.start⟩
-  | cons g r ih =>
-    intro m s o h ha hc
-    simp only [List.all_cons, Bool.and_eq_true] at ha
-    have hg : isArcSeg g = false := by simpa using ha.1
-    have hclose : g = .close → o = true := by
-      intro e; subst e; simp [closesOk] at hc; exact hc.1
-    obtain ⟨m1, e1, s1⟩ := step_sim m s o g h hg hclose
-    have hc' : closesOk (openAfter o g) r = true := by
-      cases g <;> simp_all [closesOk, openAfter]
-    obtain ⟨m2, e2, c2, t2⟩ := ih m1 (step s g).1 (openAfter o g) s1 ha.2 hc'
-    refine ⟨m2, ?_, ?_, ?_⟩
-    · simp only [List.map_cons, runSegs, interp]
-      have : (segRaw g) = ((segRaw g).1, (segRaw g).2) := rfl
-      rw [this]
-      simp only [runSegs, e1, e2]
-    · simpa [interp] using c2
-    · simpa [interp] using t2
+  | nil => intro m s o h; exact ⟨m, by simp [absOr4, absQuads, smoothCubeLoop, interp], by simpa [interp] using h, by simp⟩
+  | cons p r ih =>
+    intro m s o h
+    obtain ⟨a, b⟩ := p
+    obtain ⟨h1, h2, h3, h4, h5⟩ := h
+    have hctl : (if isCubeKey m.lastKey = true then reflection m.cur m.ctl else m.cur) =
+        (match s.cubicCtl with | some c => mirror s.cur c | none => s.cur) := by
+      rw [h4]; cases isCubeKey m.lastKey <;> simp [mirror_eq, h1]
+    have hctl' := hctl
+    rw [h1] at hctl'
+    cases rel
+    · obtain ⟨m', e, sm, lk⟩ := ih { m with ctl := a, cur := b, lastKey := op } (step s (.smooth false a b)).1 o
+        ⟨by simp [step, toAbs], by simp [step, h2], h3, by simp [step, toAbs, hc], by simp [step, hq]⟩
+      simp only [absOr4, if_false, Bool.false_eq_true] at e ⊢
+      refine ⟨m', ?_, ?_, ?_⟩
+      · simp only [List.map_cons, interp, smoothCubeLoop, e]
+        simp [step, toAbs, hctl] <;> rfl
+      · simpa [interp] using sm
+      · intro _; cases r with
+        | nil => simp [absQuads, smoothCubeLoop] at e; rw [← e.1]
+        | cons x y => exact lk (by simp)
+    · obtain ⟨m', e, sm, lk⟩ := ih { m with ctl := padd m.cur a, cur := padd m.cur b, lastKey := op }
+        (step s (.smooth true a b)).1 o
+        ⟨by simp [step, toAbs, padd, h1], by simp [step, h2], h3, by simp [step, toAbs, hc, padd, h1], by simp [step, hq]⟩
+      simp only [absOr4, if_true] at e ⊢
+      refine ⟨m', ?_, ?_, ?_⟩
+      · simp only [List.map_cons, interp, smoothCubeLoop, absQuads, e]
+        simp [step, toAbs, hctl', padd, h1] <;> rfl
+      · simpa [interp] using sm
+      · intro _; cases r with
+        | nil => simp [absQuads, smoothCubeLoop] at e; rw [← e.1]
+        | cons x y => exact lk (by simp)
 
-/-! ## implicit lineto after moveto -/
+theorem smoothQuad_loop (rel : Bool) (op : Char) (hc : isCubeKey op = false) (hq : isQuadKey op = true) :
+    ∀ (ps : List Pt) (m : St) (s : SSt) (o : Bool), Sim m s o →
+    ∃ m', smoothQuadLoop op m (absOrP rel m.cur ps) = (m', (interp s (ps.map (.smoothQuad rel))).2) ∧
+      Sim m' (interp s (ps.map (.smoothQuad rel))).1 o ∧ (ps ≠ [] → m'.lastKey = op) := by
+  intro ps
+  induction ps with
+  | nil => intro m s o h; exact ⟨m, by simp [absOrP, absPairs, smoothQuadLoop, interp], by simpa [interp] using h, by simp⟩
+  | cons p r ih =>
+    intro m s o h
+    obtain ⟨h1, h2, h3, h4, h5⟩ := h
+    have hctl : (if isQuadKey m.lastKey = true then reflection m.cur m.ctl else m.cur) =
+        (match s.quadCtl with | some c => mirror s.cur c | none => s.cur) := by
+      rw [h5]; cases isQuadKey m.lastKey <;> simp [mirror_eq, h1]
+    have hctl' := hctl
+    rw [h1] at hctl'
+    cases rel
+    · obtain ⟨m', e, sm, lk⟩ := ih { m with ctl := (if isQuadKey m.lastKey = true then reflection m.cur m.ctl else m.cur), cur := p, lastKey := op }
+        (step s (.smoothQuad false p)).1 o
+        ⟨by simp [step, toAbs], by simp [step, h2], h3, by simp [step, hc], by simp [step, hq, hctl]; rfl⟩
+      simp only [absOrP, if_false, Bool.false_eq_true] at e ⊢
+      refine ⟨m', ?_, ?_, ?_⟩
+      · simp only [List.map_cons, interp, smoothQuadLoop, e]
+        simp [step, toAbs, hctl, hctl', h1, quadraticToCubic, elevate] <;> (repeat' (first | rfl | constructor))
+      · simpa [interp] using sm
+      · intro _; cases r with
+        | nil => simp [smoothQuadLoop] at e; rw [← e.1]
+        | cons x y => exact lk (by simp)
+    · obtain ⟨m', e, sm, lk⟩ := ih { m with ctl := (if isQuadKey m.lastKey = true then reflection m.cur m.ctl else m.cur), cur := padd m.cur p, lastKey := op }
+        (step s (.smoothQuad true p)).1 o
+        ⟨by simp [step, toAbs, padd, h1], by simp [step, h2], h3, by simp [step, hc], by simp [step, hq, hctl]; rfl⟩
+      simp only [absOrP, if_true] at e ⊢
+      refine ⟨m', ?_, ?_, ?_⟩
+      · simp only [List.map_cons, interp, smoothQuadLoop, absPairs, e]
+        simp [step, toAbs, hctl, hctl', padd, h1, quadraticToCubic, elevate] <;> (repeat' (first | rfl | constructor))
+      · simpa [interp] using sm
+      · intro _; cases r with
+        | nil => simp [absPairs, smoothQuadLoop] at e; rw [← e.1]
+        | cons x y => exact lk (by simp)
+
+def b2r (b : Bool) : Rat := if b then 1 else 0
+def arcArgs (a : Arc) : ArcArgs := ⟨a.rx, a.ry, a.rot, b2r a.large, b2r a.sweep, a.p⟩
+
+theorem b2r_ne (b : Bool) : (b2r b != 0) = b := by
+  cases b
+  · decide +kernel
+  · decide +kernel
+
+theorem arc_loop (rel : Bool) : ∀ (gs : List Arc) (m : St) (s : SSt), m.cur = s.cur →
+    (arcLoop rel m (gs.map arcArgs)).2 = (interp s (gs.map (.arc rel))).2 ∧
+    (arcLoop rel m (gs.map arcArgs)).1.cur = (interp s (gs.map (.arc rel))).1.cur ∧
+    (arcLoop rel m (gs.map arcArgs)).1.start = m.start ∧
+    (arcLoop rel m (gs.map arcArgs)).1.inPath = m.inPath ∧
+    (interp s (gs.map (.arc rel))).1.start = s.start ∧
+    (gs ≠ [] → (interp s (gs.map (.arc rel))).1.cubicCtl = none ∧ (interp s (gs.map (.arc rel))).1.quadCtl = none) := by
+  intro gs
+  induction gs with
+  | nil => intro m s h; simp [arcLoop, interp, h]
+  | cons a r ih =>
+    intro m s h
+    have he : (if rel = true then padd m.cur a.p else a.p) = toAbs rel s.cur a.p := by
+      cases rel <;> simp [toAbs, padd, h]
+    simp only [List.map_cons, arcLoop, interp, arcArgs, he, b2r_ne]
+    by_cases hz : (a.rx == 0 || a.ry == 0) = true
+    · have := ih { m with cur := toAbs rel s.cur a.p } (step s (.arc rel a)).1 (by simp [step, hz])
+      obtain ⟨i1, i2, i3, i4, i5, i6⟩ := this
+      simp only [hz, if_true]
+      refine ⟨by rw [i1]; simp [step, hz], by rw [i2], by simpa using i3, by simpa using i4, by rw [i5]; simp [step, hz], ?_⟩
+      intro _
+      cases r with
+      | nil => simp [interp, step, hz]
+      | cons x y => exact i6 (by simp)
+    · simp only [hz, if_false, Bool.false_eq_true]
+      by_cases hq : (toAbs rel s.cur a.p == m.cur) = true
+      · have hq' : (toAbs rel s.cur a.p == s.cur) = true := by rw [h] at hq; exact hq
+        have hcur : toAbs rel s.cur a.p = s.cur := by simpa using hq'
+        have := ih m (step s (.arc rel a)).1 (by simp [step, hz, hq', hcur, h])
+        obtain ⟨i1, i2, i3, i4, i5, i6⟩ := this
+        simp only [hq, if_true]
+        refine ⟨by rw [i1]; simp [step, hz, hq'], by rw [i2], i3, i4, by rw [i5]; simp [step, hz, hq'], ?_⟩
+        intro _
+        cases r with
+        | nil => simp [interp, step, hz, hq']
+        | cons x y => exact i6 (by simp)
+      · have hq' : (toAbs rel s.cur a.p == s.cur) = false := by rw [h] at hq; simpa using hq
+        have := ih { m with cur := toAbs rel s.cur a.p } (step s (.arc rel a)).1 (by simp [step, hz, hq'])
+        obtain ⟨i1, i2, i3, i4, i5, i6⟩ := this
+        simp only [hq, if_false, Bool.false_eq_true]
+        refine ⟨by rw [i1]; simp [step, hz, hq'], by rw [i2], by simpa using i3, by simpa using i4, by rw [i5]; simp [step, hz, hq'], ?_⟩
+        intro _
+        cases r with
+        | nil => simp [interp, step, hz, hq']
+        | cons x y => exact i6 (by simp)
 
 def flatP (ps : List Pt) : List Rat := ps.flatMap fun p => [p.1, p.2]
+def flat4 (gs : List (Pt × Pt)) : List Rat := gs.flatMap fun g => [g.1.1, g.1.2, g.2.1, g.2.2]
+def flat6 (gs : List (Pt × Pt × Pt)) : List Rat :=
+  gs.flatMap fun g => [g.1.1, g.1.2, g.2.1.1, g.2.1.2, g.2.2.1, g.2.2.2]
+def flat7 (gs : List Arc) : List Rat :=
+  gs.flatMap fun a => [a.rx, a.ry, a.rot, b2r a.large, b2r a.sweep, a.p.1, a.p.2]
 
 theorem pairs_flatP (ps : List Pt) : pairs (flatP ps) = some ps := by
   induction ps with
@@ -342,26 +503,215 @@ theorem pairs_flatP (ps : List Pt) : pairs (flatP ps) = some ps := by
     simp only [flatP, List.flatMap_cons, List.cons_append, List.nil_append] at ih ⊢
     simp [pairs, ih]
 
-theorem lastD_cons {α} (d d' : α) (h : α) (t : List α) : lastD d (h :: t) = lastD d' (h :: t) := by
-  induction t generalizing h with
-  | nil => simp [lastD]
-  | cons a t ih => simp only [lastD]; exact ih a
+theorem quads_flat4 (gs : List (Pt × Pt)) : quads (flat4 gs) = some gs := by
+  induction gs with
+  | nil => simp [flat4, quads]
+  | cons p r ih =>
+    simp only [flat4, List.flatMap_cons, List.cons_append, List.nil_append] at ih ⊢
+    simp [quads, ih]
 
-theorem lines_run (r : List Pt) : ∀ m : St, ∃ m', runSegs m (r.map fun q => ('L', [q.1, q.2])) = .ok (m', r.map .lineTo) ∧
-    m'.cur = lastD m.cur r ∧ m'.start = m.start ∧ m'.inPath = m.inPath := by
-  induction r with
-  | nil => intro m; exact ⟨m, by simp [runSegs], by simp [lastD], rfl, rfl⟩
-  | cons q r ih =>
-    intro m
-    obtain ⟨m', e, c, s, i⟩ := ih { m with cur := q, lastKey := 'L' }
-    refine ⟨m', ?_, ?_, ?_, ?_⟩
-    · simp only [List.map_cons, runSegs]
-      simp [addSeg, pairs, lastD, e]
-    · rw [c]; cases r with
-      | nil => simp [lastD]
-      | cons a t => simp only [lastD]; exact lastD_cons _ _ a t
-    · simpa using s
-    · simpa using i
+theorem sixes_flat6 (gs : List (Pt × Pt × Pt)) : sixes (flat6 gs) = some gs := by
+  induction gs with
+  | nil => simp [flat6, sixes]
+  | cons p r ih =>
+    simp only [flat6, List.flatMap_cons, List.cons_append, List.nil_append] at ih ⊢
+    simp [sixes, ih]
 
+theorem sevens_flat7 (gs : List Arc) : sevens (flat7 gs) = some (gs.map arcArgs) := by
+  induction gs with
+  | nil => simp [flat7, sevens]
+  | cons p r ih =>
+    simp only [flat7, List.flatMap_cons, List.cons_append, List.nil_append] at ih ⊢
+    simp [sevens, ih, arcArgs]
+
+/-- the command as the code sees it: command byte and flat number list -/
+def toRaw : Cmd → Char × List Rat
+  | .move rel ps => (if rel then 'm' else 'M', flatP ps)
+  | .line rel ps => (if rel then 'l' else 'L', flatP ps)
+  | .hline rel xs => (if rel then 'h' else 'H', xs)
+  | .vline rel ys => (if rel then 'v' else 'V', ys)
+  | .cubic rel gs => (if rel then 'c' else 'C', flat6 gs)
+  | .smooth rel gs => (if rel then 's' else 'S', flat4 gs)
+  | .quad rel gs => (if rel then 'q' else 'Q', flat4 gs)
+  | .smoothQuad rel ps => (if rel then 't' else 'T', flatP ps)
+  | .arc rel gs => (if rel then 'a' else 'A', flat7 gs)
+  | .close => ('Z', [])
+
+def isMove : Cmd → Bool
+  | .move _ _ => true
+  | _ => false
+
+theorem cmd_sim (m : St) (s : SSt) (o : Bool) (c : Cmd) (h : Sim m s o) (ha : c.hasArgs = true)
+    (hc : c = .close → o = true) :
+    ∃ m', addSeg m (toRaw c).1 (toRaw c).2 = .ok (m', (interp s (expand c)).2) ∧
+      Sim m' (interp s (expand c)).1 (o || isMove c) := by
+  have ⟨h1, h2, h3, h4, h5⟩ := h
+  cases c with
+  | close =>
+    have ho := hc rfl
+    subst ho
+    simp [toRaw, addSeg, expand, interp, step, h3, isMove, ← h2]
+    constructor <;> simp [isCubeKey, isQuadKey, h3]
+  | line rel ps =>
+    cases ps with
+    | nil => simp [Cmd.hasArgs] at ha
+    | cons p r =>
+      have hi := lines_interp rel (p :: r) s
+      simp only [toRaw, expand, hi]
+      cases rel <;>
+        simp [addSeg, pairs_flatP, absOrP, isMove, plain, ← h1] <;>
+        constructor <;> simp [isCubeKey, isQuadKey, h3, h2, plain]
+  | move rel ps =>
+    cases ps with
+    | nil => simp [Cmd.hasArgs] at ha
+    | cons p r =>
+      have hi := lines_interp rel r (step s (.move rel p)).1
+      simp only [toRaw, expand, interp, hi]
+      cases rel <;> cases r <;>
+        simp [addSeg, pairs_flatP, absOrP, absPairs, isMove, plain, step, toAbs, padd, lastD, lastD_cons_eq, ← h1] <;>
+        constructor <;> simp [isCubeKey, isQuadKey, plain, lastD, lastD_cons_eq]
+  | hline rel xs =>
+    cases xs with
+    | nil => simp [Cmd.hasArgs] at ha
+    | cons p r =>
+      have hi := h_interp rel (p :: r) s
+      simp only [toRaw, expand, hi]
+      cases rel <;>
+        simp [addSeg, absOrV, absVals, isMove, plain, ← h1] <;>
+        constructor <;> simp [isCubeKey, isQuadKey, h3, h2, plain]
+  | vline rel xs =>
+    cases xs with
+    | nil => simp [Cmd.hasArgs] at ha
+    | cons p r =>
+      have hi := v_interp rel (p :: r) s
+      simp only [toRaw, expand, hi]
+      cases rel <;>
+        simp [addSeg, absOrV, absVals, isMove, plain, ← h1] <;>
+        constructor <;> simp [isCubeKey, isQuadKey, h3, h2, plain]
+  | cubic rel gs =>
+    cases gs with
+    | nil => simp [Cmd.hasArgs] at ha
+    | cons p r =>
+      obtain ⟨a, b, c⟩ := p
+      have hi := cubic_interp rel ((a, b, c) :: r) s
+      simp only [toRaw, expand, hi]
+      cases rel <;>
+        simp [addSeg, sixes_flat6, absOr6, absSixes, isMove, ← h1] <;>
+        constructor <;> simp [isCubeKey, isQuadKey, h3, h2, lastD_cons_eq]
+  | quad rel gs =>
+    cases gs with
+    | nil => simp [Cmd.hasArgs] at ha
+    | cons p r =>
+      obtain ⟨a, b⟩ := p
+      obtain ⟨q1, q2, q3, q4⟩ := quad_loop rel ((a, b) :: r) m s h1
+      simp only [toRaw, expand]
+      cases rel <;>
+        simp [addSeg, quads_flat4, absOr4, absQuads, isMove] at q1 q2 q3 q4 ⊢ <;>
+        refine ⟨_, ⟨rfl, q1⟩, ?_⟩ <;> rw [q2] <;>
+        constructor <;> simp [isCubeKey, isQuadKey, h3, h2, q3, q4, lastD_cons_eq]
+  | smooth rel gs =>
+    cases gs with
+    | nil => simp [Cmd.hasArgs] at ha
+    | cons p r =>
+      cases rel
+      · obtain ⟨m', e, sm, lk⟩ := smoothCube_loop false 'S' (by decide) (by decide) (p :: r) m s o h
+        have hl := lk (by simp)
+        simp only [absOr4, if_false, Bool.false_eq_true] at e
+        refine ⟨m', ?_, by simpa [expand, isMove] using sm⟩
+        simp [toRaw, addSeg, quads_flat4, expand, e]
+        cases m'; simp_all
+      · obtain ⟨m', e, sm, lk⟩ := smoothCube_loop true 's' (by decide) (by decide) (p :: r) m s o h
+        have hl := lk (by simp)
+        simp only [absOr4, if_true] at e
+        refine ⟨m', ?_, by simpa [expand, isMove] using sm⟩
+        simp [toRaw, addSeg, quads_flat4, expand, e]
+        cases m'; simp_all
+  | smoothQuad rel ps =>
+    cases ps with
+    | nil => simp [Cmd.hasArgs] at ha
+    | cons p r =>
+      cases rel
+      · obtain ⟨m', e, sm, lk⟩ := smoothQuad_loop false 'T' (by decide) (by decide) (p :: r) m s o h
+        have hl := lk (by simp)
+        simp only [absOrP, if_false, Bool.false_eq_true] at e
+        refine ⟨m', ?_, by simpa [expand, isMove] using sm⟩
+        simp [toRaw, addSeg, pairs_flatP, expand, e]
+        cases m'; simp_all
+      · obtain ⟨m', e, sm, lk⟩ := smoothQuad_loop true 't' (by decide) (by decide) (p :: r) m s o h
+        have hl := lk (by simp)
+        simp only [absOrP, if_true] at e
+        refine ⟨m', ?_, by simpa [expand, isMove] using sm⟩
+        simp [toRaw, addSeg, pairs_flatP, expand, e]
+        cases m'; simp_all
+  | arc rel gs =>
+    cases gs with
+    | nil => simp [Cmd.hasArgs] at ha
+    | cons p r =>
+      obtain ⟨a1, a2, a3, a4, a5, a6⟩ := arc_loop rel (p :: r) m s h1
+      obtain ⟨a6, a7⟩ := a6 (by simp)
+      simp only [List.map_cons] at a5 a6 a7
+      simp only [toRaw, expand]
+      cases rel <;>
+        simp [addSeg, sevens_flat7, isMove] at a1 a2 a3 a4 ⊢ <;>
+        refine ⟨_, ⟨rfl, a1⟩, ?_⟩ <;>
+        constructor <;> simp [isCubeKey, isQuadKey, h3, h2, a2, a3, a4, a5, a6, a7]
+
+theorem interp_append (a b : List Seg) : ∀ s : SSt,
+    interp s (a ++ b) = ((interp (interp s a).1 b).1, (interp s a).2 ++ (interp (interp s a).1 b).2) := by
+  induction a with
+  | nil => intro s; simp [interp]
+  | cons g r ih => intro s; simp [interp, ih]
+
+theorem cmds_sim : ∀ (cmds : List Cmd) (m : St) (s : SSt), Sim m s true → cmds.all Cmd.hasArgs = true →
+    ∃ m', runSegs m (cmds.map toRaw) = .ok (m', (interp s (cmds.flatMap expand)).2) ∧
+      Sim m' (interp s (cmds.flatMap expand)).1 true := by
+  intro cmds
+  induction cmds with
+  | nil => intro m s h _; exact ⟨m, by simp [runSegs, interp], by simpa [interp] using h⟩
+  | cons c r ih =>
+    intro m s h ha
+    simp only [List.all_cons, Bool.and_eq_true] at ha
+    obtain ⟨m1, e1, s1⟩ := cmd_sim m s true c h ha.1 (fun _ => rfl)
+    simp only [Bool.true_or] at s1
+    obtain ⟨m2, e2, s2⟩ := ih m1 (interp s (expand c)).1 s1 ha.2
+    refine ⟨m2, ?_, ?_⟩
+    · simp only [List.map_cons, List.flatMap_cons, interp_append]
+      have : toRaw c = ((toRaw c).1, (toRaw c).2) := rfl
+      rw [this]
+      simp only [runSegs, e1, e2]
+    · simpa [List.flatMap_cons, interp_append] using s2
+
+theorem path_full (cmds : List Cmd) (hg : grammatical cmds = true) :
+    ∃ m, runSegs {} (cmds.map toRaw) = .ok (m, (run cmds).2) ∧
+      m.cur = (run cmds).1.cur ∧ m.start = (run cmds).1.start := by
+  cases cmds with
+  | nil => exact ⟨{}, by simp [runSegs, run, interp], rfl, rfl⟩
+  | cons c r =>
+    cases c with
+    | move rel ps =>
+      simp only [grammatical, List.all_cons, Bool.and_eq_true] at hg
+      obtain ⟨m1, e1, s1⟩ := cmd_sim {} {} false (.move rel ps) ⟨rfl, rfl, rfl, by decide, by decide⟩ hg.1 (by simp)
+      simp only [isMove, Bool.or_true] at s1
+      obtain ⟨m2, e2, s2⟩ := cmds_sim r m1 _ s1 hg.2
+      refine ⟨m2, ?_, ?_, ?_⟩
+      · simp only [List.map_cons, run, List.flatMap_cons, interp_append]
+        have : toRaw (.move rel ps) = ((toRaw (.move rel ps)).1, (toRaw (.move rel ps)).2) := rfl
+        rw [this]
+        simp only [runSegs, e1, e2]
+      · simpa [run, List.flatMap_cons, interp_append] using s2.cur
+      · simpa [run, List.flatMap_cons, interp_append] using s2.start
+    | _ => simp [grammatical] at hg
+
+/-- a run of arc segments ends at the last group's end point -/
+theorem arcs_cur : ∀ (gs : List Arc) (g : Arc) (s : SSt),
+    (interp s ((g :: gs).map (.arc false))).1.cur = (lastD g gs).p := by
+  intro gs
+  induction gs with
+  | nil => intro g s; simp only [List.map_cons, List.map_nil, interp, step, lastD]; split <;> (try split) <;> simp [toAbs]
+  | cons a r ih =>
+    intro g s
+    have := ih a (step s (.arc false g)).1
+    simp only [List.map_cons, interp] at this ⊢
+    rw [this, lastD_cons_eq g a r]
 
 end WR.C18.Lemmas
